@@ -258,14 +258,14 @@ fn main() {
         std::fs::create_dir_all(out.join("src/bin")).unwrap();
         std::fs::write(
             out.join("Cargo.toml"),
-            "[package]\nname = \"macroprog\"\nversion = \"0.0.0\"\nedition = \"2021\"\npublish = false\n\n[workspace]\n\n[dependencies]\ntoml = { path = \"/repo/crates/toml\" }\n\n[profile.dev]\nopt-level = 0\ndebug = 0\n",
+            "[package]\nname = \"macroprog\"\nversion = \"0.0.0\"\nedition = \"2021\"\npublish = false\n\n[workspace]\n\n[dependencies]\ntoml = { path = \"/repo/crates/toml\" }\n\n[features]\npo = [\"toml/preserve_order\"]\n\n[profile.dev]\nopt-level = 0\ndebug = 0\n",
         )
         .unwrap();
         for p in 0..n_prog {
             let mut src = String::new();
             src.push_str("// generated by vcheck macrogen: toml!{ D } against D.parse::<toml::Table>()\n#![allow(clippy::all, unused)]\n");
-            src.push_str("fn same(a: &toml::Value, b: &toml::Value) -> bool {\n    use toml::Value::*;\n    match (a, b) {\n        (Float(x), Float(y)) => (x.is_nan() && y.is_nan()) || x.to_bits() == y.to_bits(),\n        (Array(x), Array(y)) => x.len() == y.len() && x.iter().zip(y).all(|(p, q)| same(p, q)),\n        (Table(x), Table(y)) => x.len() == y.len() && x.iter().all(|(k, v)| y.get(k).map_or(false, |w| same(v, w))),\n        _ => a == b,\n    }\n}\n");
-            src.push_str("fn report(i: usize, m: toml::Table, text: &str) -> bool {\n    match text.parse::<toml::Table>() {\n        Ok(p) => {\n            let ok = same(&toml::Value::Table(m.clone()), &toml::Value::Table(p.clone()));\n            if !ok {\n                println!(\"MISMATCH {i} macro={:?} parsed={:?}\", m, p);\n            }\n            ok\n        }\n        Err(e) => {\n            println!(\"PARSE-ERROR {i} {}\", e.to_string().replace('\\n', \" | \"));\n            false\n        }\n    }\n}\n");
+            src.push_str("fn same(a: &toml::Value, b: &toml::Value) -> bool {\n    use toml::Value::*;\n    match (a, b) {\n        (Float(x), Float(y)) => x.to_bits() == y.to_bits(),\n        (Array(x), Array(y)) => x.len() == y.len() && x.iter().zip(y).all(|(p, q)| same(p, q)),\n        (Table(x), Table(y)) => x.len() == y.len() && x.iter().all(|(k, v)| y.get(k).map_or(false, |w| same(v, w))),\n        _ => a == b,\n    }\n}\n");
+            src.push_str("fn report(i: usize, m: toml::Table, text: &str) -> bool {\n    match text.parse::<toml::Table>() {\n        Ok(p) => {\n            let ok = same(&toml::Value::Table(m.clone()), &toml::Value::Table(p.clone()));\n            if !ok {\n                println!(\"MISMATCH {i} macro={:?} parsed={:?}\", m, p);\n            } else if !format!(\"{m:?}\").contains(\"NaN\") && m != p {\n                println!(\"LIBEQ-MISMATCH {i} the tables hold the same data but `==` says they differ: macro={:?} parsed={:?}\", m, p);\n                return false;\n            }\n            ok\n        }\n        Err(e) => {\n            println!(\"PARSE-ERROR {i} {}\", e.to_string().replace('\\n', \" | \"));\n            false\n        }\n    }\n}\n");
             let mut calls = String::new();
             for d in 0..per {
                 let idx = p * per + d;
